@@ -594,7 +594,7 @@ func c12Helpers(r *core.Run, rule string) {
 		name := f.Obj.Name()
 		info := p.TypesInfo
 		switch {
-		case strings.HasPrefix(name, "WriteString") && strings.HasSuffix(name, "Length"):
+		case (strings.HasPrefix(name, "WriteString") || strings.HasPrefix(name, "WriteBytes")) && strings.HasSuffix(name, "Length"):
 			r.Fn(f)
 			r.Sites++
 			ps := paramObjs(f)
@@ -602,6 +602,11 @@ func c12Helpers(r *core.Run, rule string) {
 			for _, q := range ps {
 				if b, ok := q.Type().Underlying().(*types.Basic); ok && b.Info()&types.IsString != 0 {
 					val = q
+				}
+				if sl, ok := q.Type().Underlying().(*types.Slice); ok {
+					if b, ok := sl.Elem().Underlying().(*types.Basic); ok && b.Kind() == types.Byte {
+						val = q
+					}
 				}
 			}
 			key := "pkg/util/bytes." + name + " prefix is the byte length of the value written"
@@ -647,6 +652,12 @@ func c12Helpers(r *core.Run, rule string) {
 				bad = "no write of len(value) followed by the value found"
 			}
 			r.Check(bad == "", rule, key, w.Pos(f.Decl.Pos()), "prefix = len(value) in bytes, then the value", bad+": the reader takes the prefix as a byte count, so a value whose byte length differs (multi-byte text) shifts every following field")
+		case strings.HasPrefix(name, "ReadBytes") && strings.HasSuffix(name, "Length"):
+			r.Fn(f)
+			r.Sites++
+			key := "pkg/util/bytes." + name + " hands back exactly the prefixed number of bytes, freshly allocated"
+			bad := readCopies(w, f, nil, 2, true)
+			r.Check(bad == "", rule, key, w.Pos(f.Decl.Pos()), "make(prefix) + Read", bad+": the decoded bytes would have another length than the writer's prefix, or alias the transport's receive buffer")
 		case strings.HasPrefix(name, "ReadString") && strings.HasSuffix(name, "Length"):
 			r.Fn(f)
 			r.Sites++
@@ -719,6 +730,9 @@ func readCopies(w *core.World, f *core.FuncInfo, lengthP types.Object, depth int
 				okRet = true // the freshly allocated buffer itself (the caller converts it)
 				return true
 			}
+			if cl, isLit := ast.Unparen(x.Results[0]).(*ast.CompositeLit); wantBytes && isLit && len(cl.Elts) == 0 {
+				return true // []byte{} for a zero prefix
+			}
 			c, ok := ast.Unparen(x.Results[0]).(*ast.CallExpr)
 			if ok && len(c.Args) == 1 && bufV != nil && isObj(info, c.Args[0], bufV) {
 				if tv, ok := info.Types[c.Fun]; ok && tv.IsType() {
@@ -732,6 +746,15 @@ func readCopies(w *core.World, f *core.FuncInfo, lengthP types.Object, depth int
 					if inner, isCall := ast.Unparen(c.Args[0]).(*ast.CallExpr); isCall {
 						if g := w.Info(core.Callee(info, inner)); g != nil && g.Pkg == f.Pkg {
 							gp := paramObjs(g)
+							if lengthV == nil {
+								// g reads the prefix itself and hands back the fresh bytes: string(ReadBytesNLength(buf))
+								if sub := readCopies(w, g, nil, depth-1, true); sub == "" {
+									okMake, okRead, okRet = true, true, true
+								} else {
+									bad = core.ShortKey(g.Obj) + ": " + sub
+								}
+								return true
+							}
 							for i, a := range inner.Args {
 								if sameLen(a) && i < len(gp) {
 									if sub := readCopies(w, g, gp[i], depth-1, true); sub == "" {
@@ -752,7 +775,7 @@ func readCopies(w *core.World, f *core.FuncInfo, lengthP types.Object, depth int
 					gp := paramObjs(g)
 					for i, a := range c.Args {
 						if sameLen(a) && i < len(gp) {
-							if sub := readCopies(w, g, gp[i], depth-1); sub == "" {
+							if sub := readCopies(w, g, gp[i], depth-1, wantBytes); sub == "" {
 								okMake, okRead, okRet = true, true, true
 							} else {
 								bad = core.ShortKey(g.Obj) + ": " + sub
